@@ -406,8 +406,9 @@ def R9_signed_addition(run):
                     zero = (at, o == "Eq")
                 elif o in ("Gt", "Le", "Lt", "Ge"):
                     pos = (at, o)
-    ok = zero is not None and pos is not None and len(ats) == 2
-    run.check("R9", "tests", ok, "add_liquidity_delta does not test exactly delta == 0 and the sign of delta (%s)" % [at.describe()[:50] for at in ats], loc=fn.loc(), detail="delta == 0; delta > 0")
+    # (the zero test is optional: adding `0 as u128` checked returns the liquidity unchanged as well)
+    ok = pos is not None and ((zero is not None and len(ats) == 2) or (zero is None and len(ats) == 1 and pos[1] in ("Lt", "Ge")))
+    run.check("R9", "tests", ok, "add_liquidity_delta does not test exactly the sign of delta (and optionally delta == 0) (%s)" % [at.describe()[:50] for at in ats], loc=fn.loc(), detail="[delta == 0;] sign of delta")
     if not ok:
         return
 
@@ -418,16 +419,20 @@ def R9_signed_addition(run):
             if bb["t"]["k"] == "ret" and pv.flow.state_in[bi] is not None:
                 out.extend(leaves(pv.local(0, bi, len(bb["s"]))))
         return out
-    z_true = (zero[0], zero[1])
-    z_false = (zero[0], not zero[1])
-    r0 = rets([z_true])
-    ok0 = len(r0) == 1 and r0[0][0] == "agg" and r0[0][2] == "Ok" and is_param(dict(r0[0][3])["0"], "liquidity")
-    run.check("R9", "zero", ok0, "add_liquidity_delta(l, 0) returns %s, expected Ok(l)" % [sh(x, 40) for x in r0], loc=fn.loc(), detail="Ok(liquidity)")
+    if zero is not None:
+        z_true = (zero[0], zero[1])
+        z_false = [(zero[0], not zero[1])]
+        r0 = rets([z_true])
+        ok0 = len(r0) == 1 and r0[0][0] == "agg" and r0[0][2] == "Ok" and is_param(dict(r0[0][3])["0"], "liquidity")
+        run.check("R9", "zero", ok0, "add_liquidity_delta(l, 0) returns %s, expected Ok(l)" % [sh(x, 40) for x in r0], loc=fn.loc(), detail="Ok(liquidity)")
+    else:
+        z_false = []
+        run.ok("R9", "zero", detail="a zero delta takes the addition: liquidity.checked_add(0) is liquidity")
     at, o = pos
     # truth value of the atom under which delta > 0 (given delta != 0: Ge is Gt, Le is Lt)
     pos_true = {"Gt": True, "Ge": True, "Lt": False, "Le": False}[o]
     for sign, truth, op, conv, code in (("positive", pos_true, "checked_add", "cast", "LiquidityOverflow"), ("negative", not pos_true, "checked_sub", "unsigned_abs", "LiquidityUnderflow")):
-        rs = rets([z_false, (at, truth)])
+        rs = rets(z_false + [(at, truth)])
         ok = len(rs) == 1
         why = [sh(x, 80) for x in rs]
         if ok:
